@@ -146,6 +146,11 @@ theorem sim_mv (hag : VAgreeM cx vis env vvty) (hw : Worlds cx rsv W M) (hÏ : â
         have := (op_floatCallM hf).1
         simp only [VIr.typeOf, htx, this] at ht
         simp at ht
+      | floatAssign scalars err outer inner b =>
+        -- `%=`: an assignment, typed at statement level only (`sim_massign`)
+        have := (op_floatAssignM hf).1
+        simp only [VIr.typeOf, htx, this] at ht
+        simp at ht
       | unary u =>
         cases hgx : genMV cx vvty x with
         | error e => simp [genMV, hf, hgx] at hg
@@ -219,6 +224,10 @@ theorem sim_mv (hag : VAgreeM cx vis env vvty) (hw : Worlds cx rsv W M) (hÏ : â
                 exact sim_mbin hw.prim hÏ (hbsem.trans hm.symm) (sim_mv hag hw hÏ x x' tx hgx htx lx) htx
                   (sim_mv hag hw hÏ y y' ty hgy hty ly) hty ht hbs (by
                     intro _ hfl; apply hnin; rw [hfl]; decide)
+        | floatAssign scalars err outer inner b =>
+          have := (op_floatAssignM hf).1
+          simp only [VIr.typeOf, htx, hty, this] at ht
+          simp at ht
   | .op o (.cons x (.cons y (.cons z r))), a, t, hg, ht, _ => by simp [VIr.typeOf] at ht
 theorem sim_mslots (hag : VAgreeM cx vis env vvty) (hw : Worlds cx rsv W M) (hÏ : âˆ€ y, VOk.shaped (vvty y) (Ï y) = true) :
     âˆ€ (slots : VSlots) (as : VAExprs) (k : Ty) (total : Nat),
